@@ -4,9 +4,21 @@
 //   uni_esc <w> <mode> <lo> <hi>     for cp in [lo,hi): "ret:units" of UnEscape on the string of <mode>
 //   uni_un  <w> <prefill> <units>    "ret|stream" of UnEscape(units, |units|, stream holding prefill)
 //   uni_hex <w> <units>              HexStringToNumber<SizeT32>(units, |units|)
+// Public-API / capacity pass (every entry point, every overload, both stream types that satisfy Stream_T):
+//   uni_encf <w> <S|T> <p> <k> <lo> <hi>       ToUTF into a stream holding p units with exactly k free units
+//                                              (S = StringStream, T = String; even u: Unicode::ToUTF<Char_T>,
+//                                              odd u: UnicodeToUTF<Char_T,Stream_T,sizeof(Char_T)>::ToUTF); whole stream printed
+//   uni_escf <w> <S|T> <mode> <p> <k> <lo> <hi>  UnEscape of the mode string into such a stream, "ret:stream"
+//   uni_unf  <w> <S|T> <k> <prefill> <units>     UnEscape(units) into prefill with exactly k free units, "ret|stream"
+//   uni_hexw <w> <bits> <szbits> <off> <end> <units>  HexStringToNumber<uintBITS_t>(units, offset&, end) with a SizeT_Type of
+//                                              szbits, "number:offset"
+//   uni_hex2 <w> <bits> <units>                HexStringToNumber<uintBITS_t>(units, |units|)
 // The escape strings of uni_esc are built here from RFC 8259 section 7, independently of the Lean side.
 #include "common.hpp"
 #include "StringStream.hpp"
+#ifdef UNI_STRING_STREAM   // second build: String<Char_T> as Stream_T (not instantiated by the library itself)
+#include "String.hpp"
+#endif
 #include "Digit.hpp"
 #include "Unicode.hpp"
 #include "JSONUtils.hpp"
@@ -99,8 +111,132 @@ static std::string doHex(const std::vector<uint64_t> &u) {
     return std::to_string((unsigned long long)n);
 }
 
+// ---- a destination with p units in it and exactly k free units ------------------------------------
+static inline uint64_t prefillUnit(uint64_t i) { return 'a' + (i % 26); }
+
+template <typename Char_T>
+static bool prepare(StringStream<Char_T> &ss, uint64_t p, uint64_t k) {
+    ss.Reserve(SizeT(p + k));
+    for (uint64_t i = 0; i < p; i++) ss += Char_T(prefillUnit(i));
+    return (ss.Length() == SizeT(p)) && (SizeT(ss.Capacity() - ss.Length()) == SizeT(k));
+}
+template <typename Char_T>
+static bool prepare(StringStream<Char_T> &ss, const std::vector<uint64_t> &pre, uint64_t k) {
+    ss.Reserve(SizeT(pre.size() + k));
+    for (uint64_t x : pre) ss += Char_T(x);
+    return (ss.Length() == SizeT(pre.size())) && (SizeT(ss.Capacity() - ss.Length()) == SizeT(k));
+}
+#ifdef UNI_STRING_STREAM
+template <typename Char_T>
+static bool prepare(String<Char_T> &ss, uint64_t p, uint64_t) {   // String has no spare capacity: k is ignored
+    for (uint64_t i = 0; i < p; i++) ss += Char_T(prefillUnit(i));
+    return ss.Length() == SizeT(p);
+}
+template <typename Char_T>
+static bool prepare(String<Char_T> &ss, const std::vector<uint64_t> &pre, uint64_t) {
+    for (uint64_t x : pre) ss += Char_T(x);
+    return ss.Length() == SizeT(pre.size());
+}
+#endif
+
+template <typename Char_T, typename Stream_T>
+static std::string doEncF(uint64_t p, uint64_t k, uint64_t lo, uint64_t hi) {
+    std::string out;
+    for (uint64_t u = lo; u < hi; u++) {
+        Stream_T ss;
+        if (!prepare(ss, p, k)) return "cap-mismatch";
+        if ((u & 1U) == 0) Unicode::ToUTF<Char_T>(SizeT32(u), ss);
+        else Unicode::UnicodeToUTF<Char_T, Stream_T, sizeof(Char_T)>::ToUTF(SizeT32(u), ss);
+        if (u != lo) out += ';';
+        out += vh::show_units(ss.First(), ss.Length());
+    }
+    return out;
+}
+
+template <typename Char_T, typename Stream_T>
+static std::string doEscF(const std::string &mode, uint64_t p, uint64_t k, uint64_t lo, uint64_t hi) {
+    std::string           out;
+    std::vector<uint64_t> in;
+    for (uint64_t cp = lo; cp < hi; cp++) {
+        if (!modeInput(mode, unsigned(cp), in)) return "bad-mode";
+        vh::ExactBuf<Char_T> buf(in);
+        Stream_T             ss;
+        if (!prepare(ss, p, k)) return "cap-mismatch";
+        const SizeT r = JSONUtils::UnEscape(buf.p, SizeT(buf.n), ss);
+        if (cp != lo) out += ';';
+        out += std::to_string((unsigned long long)r);
+        out += ':';
+        out += vh::show_units(ss.First(), ss.Length());
+    }
+    return out;
+}
+
+template <typename Char_T, typename Stream_T>
+static std::string doUnF(uint64_t k, const std::vector<uint64_t> &pre, const std::vector<uint64_t> &u) {
+    vh::ExactBuf<Char_T> buf(u);
+    Stream_T             ss;
+    if (!prepare(ss, pre, k)) return "cap-mismatch";
+    const SizeT r = JSONUtils::UnEscape(buf.p, SizeT(buf.n), ss);
+    return std::to_string((unsigned long long)r) + "|" + vh::show_units(ss.First(), ss.Length());
+}
+
+template <typename Number_T, typename Size_T, typename Char_T>
+static std::string doHexW3(uint64_t off, uint64_t end, const std::vector<uint64_t> &u) {
+    vh::ExactBuf<Char_T> buf(u);
+    Size_T               offset = Size_T(off);
+    const Number_T       n      = Digit::HexStringToNumber<Number_T>(buf.p, offset, Size_T(end));
+    return std::to_string((unsigned long long)n) + ":" + std::to_string((unsigned long long)offset);
+}
+
+template <typename Number_T, typename Char_T>
+static std::string doHexW2(const std::vector<uint64_t> &u) {
+    vh::ExactBuf<Char_T> buf(u);
+    const Number_T       n = Digit::HexStringToNumber<Number_T>(buf.p, SizeT(buf.n));
+    return std::to_string((unsigned long long)n);
+}
+
+template <typename Char_T>
+static std::string runHexW(const std::vector<std::string> &t) {
+    std::vector<uint64_t> a;
+    if (t[0] == "uni_hex2" && t.size() == 4 && vh::parse_nats(t[3], a)) {
+        if (t[2] == "8") return doHexW2<uint8_t, Char_T>(a);
+        if (t[2] == "16") return doHexW2<uint16_t, Char_T>(a);
+        if (t[2] == "32") return doHexW2<uint32_t, Char_T>(a);
+        if (t[2] == "64") return doHexW2<uint64_t, Char_T>(a);
+        return "bad-op";
+    }
+    if (t[0] == "uni_hexw" && t.size() == 7 && vh::parse_nats(t[6], a)) {
+        const uint64_t off = strtoull(t[4].c_str(), nullptr, 10), end = strtoull(t[5].c_str(), nullptr, 10);
+        if (end > a.size() && off < end) return "bad-op";   // the caller's contract: [offset, end) lies inside the buffer
+        const bool wide = (t[3] == "64");
+        if (t[2] == "8") return wide ? doHexW3<uint8_t, uint64_t, Char_T>(off, end, a) : doHexW3<uint8_t, SizeT, Char_T>(off, end, a);
+        if (t[2] == "16") return wide ? doHexW3<uint16_t, uint64_t, Char_T>(off, end, a) : doHexW3<uint16_t, SizeT, Char_T>(off, end, a);
+        if (t[2] == "32") return wide ? doHexW3<uint32_t, uint64_t, Char_T>(off, end, a) : doHexW3<uint32_t, SizeT, Char_T>(off, end, a);
+        if (t[2] == "64") return wide ? doHexW3<uint64_t, uint64_t, Char_T>(off, end, a) : doHexW3<uint64_t, SizeT, Char_T>(off, end, a);
+    }
+    return "bad-op";
+}
+
+template <typename Char_T, typename Stream_T>
+static std::string runF(const std::vector<std::string> &t) {
+    std::vector<uint64_t> a, b;
+    auto                  N = [&](size_t i) { return strtoull(t[i].c_str(), nullptr, 10); };
+    if (t[0] == "uni_encf" && t.size() == 7) return doEncF<Char_T, Stream_T>(N(3), N(4), N(5), N(6));
+    if (t[0] == "uni_escf" && t.size() == 8) return doEscF<Char_T, Stream_T>(t[3], N(4), N(5), N(6), N(7));
+    if (t[0] == "uni_unf" && t.size() == 6 && vh::parse_nats(t[4], a) && vh::parse_nats(t[5], b)) return doUnF<Char_T, Stream_T>(N(3), a, b);
+    return "bad-op";
+}
+
 template <typename Char_T>
 static std::string run(const std::vector<std::string> &t) {
+    if (t[0] == "uni_hexw" || t[0] == "uni_hex2") return runHexW<Char_T>(t);
+    if (t[0] == "uni_encf" || t[0] == "uni_escf" || t[0] == "uni_unf") {
+        if (t.size() > 2 && t[2] == "S") return runF<Char_T, StringStream<Char_T>>(t);
+#ifdef UNI_STRING_STREAM
+        if (t.size() > 2 && t[2] == "T") return runF<Char_T, String<Char_T>>(t);
+#endif
+        return "bad-op";
+    }
     std::vector<uint64_t> a, b;
     if (t[0] == "uni_enc" && t.size() == 4) return doEnc<Char_T>(strtoull(t[2].c_str(), nullptr, 10), strtoull(t[3].c_str(), nullptr, 10));
     if (t[0] == "uni_esc" && t.size() == 5) return doEsc<Char_T>(t[2], strtoull(t[3].c_str(), nullptr, 10), strtoull(t[4].c_str(), nullptr, 10));
